@@ -157,12 +157,13 @@ _ALL = {
         technique="fact walker; expression normal-form comparison; decorator-name rule",
     ),
     "C11": dict(
-        want=["P4", "P9", "P7b", "P11b", "P13", "M5", "P5b", "L1", "L2", "A3c", "D7", "M9"],
+        want=["P4", "P9", "P7b", "P11b", "P13", "M5", "P5b", "L1", "L2", "A3c", "D7", "M9", "A11"],
         explanation=("Decides two structural necessary conditions: the sort permutation derived from the labels reaches the "
                      "result and count frames on every non-transform path (P4); key names are assigned on every constructing "
                      "path (P9)."
                      ' Also: first-appearance order of the chunk-wise label union (P7b); common index of group-sorted results (P11b); generated names only for None (P13); pointer offsets (M5); selector index space (P5b); the label sort key ranks each level by the inverse permutation, in level order, and is the identity for categorical / already sorted labels (L1); the result is squeezed to 1-D exactly for a single 1-D input and loses its name only when the input had none (L2).'
-                     ' std/var forward observed_only (A3c, D7); the merge target dtype comes from the merged partials (M9); no shortcut around the lexicographic sort for several label levels (L1).'),
+                     ' std/var forward observed_only (A3c, D7); the merge target dtype comes from the merged partials (M9); no shortcut around the lexicographic sort for several label levels (L1).'
+                     ' Facade key order (A11).'),
         not_decided=["actual order, category order, lexicographic order, column independence (value-level)"],
         technique="path rules over _apply_gb_reduction / __init__",
     ),
@@ -218,10 +219,11 @@ _ALL = {
         technique="parameter-forwarding over resolved call sites",
     ),
     "C17": dict(
-        want=["A4", "A5", "A6", "A7", "A3f"],
+        want=["A4", "A5", "A6", "A7", "A3f", "A10", "A11", "A12"],
         explanation=("Decides facade<->core agreement structurally: every facade delegation passes the selected value columns "
                      "(A4), binds actuals to parameters of the same role (A5), forwards mask (A3f); iteration is positional "
-                     "(A6); key columns are excluded from the values (A7)."),
+                     "(A6); key columns are excluded from the values (A7)."
+                     ' The value columns handed to the engine are exactly the selected columns, unfiltered (A10); every `by` entry contributes its key at once, in the order given, `level` keys after them (A11); engine results are relabelled by position, never re-aligned through a pandas constructor with index= (A12).'),
         not_decided=["numerical agreement with pandas"],
         technique="call binding over facade delegations",
     ),
